@@ -44,6 +44,8 @@ type ProjectRunner struct {
 	doneProcesses     map[string]*Process
 	logger            pclog.PcLogger
 	waitGroup         sync.WaitGroup
+	exitCodeMutex     sync.Mutex
+	exitCodeSet       bool
 	exitCode          int
 	projectState      *types.ProjectState
 	mainProcess       string
@@ -194,18 +196,29 @@ func (p *ProjectRunner) waitIfNeeded(process *types.ProcessConfig) error {
 	return nil
 }
 
+// recordExitCode keeps the exit code of the first process that triggers the project shutdown;
+// processes that are merely terminated by that shutdown must not overwrite it.
+func (p *ProjectRunner) recordExitCode(exitCode int) {
+	p.exitCodeMutex.Lock()
+	defer p.exitCodeMutex.Unlock()
+	if !p.exitCodeSet {
+		p.exitCodeSet = true
+		p.exitCode = exitCode
+	}
+}
+
 func (p *ProjectRunner) onProcessEnd(exitCode int, procConf *types.ProcessConfig) {
 	if (exitCode != 0 && procConf.RestartPolicy.Restart == types.RestartPolicyExitOnFailure) ||
 		procConf.RestartPolicy.ExitOnEnd {
+		p.recordExitCode(exitCode)
 		_ = p.ShutDownProject()
-		p.exitCode = exitCode
 	}
 }
 
 func (p *ProjectRunner) onProcessSkipped(procConf *types.ProcessConfig) {
 	if procConf.RestartPolicy.ExitOnSkipped {
+		p.recordExitCode(1)
 		_ = p.ShutDownProject()
-		p.exitCode = 1
 	}
 }
 
